@@ -1,4 +1,8 @@
-import Sucds.Proofs.GenAll
+import Sucds.Proofs.GenBroadword
+import Sucds.Proofs.GenBitVectorRW
+import Sucds.Proofs.GenBitVectorScan
+import Sucds.Proofs.GenRank9Build
+import Sucds.Proofs.GenRank9Query
 import Sucds.Proofs.DArray
 /-! `DArrayIndex::{flush_cur_block, build, new}` as *generated* from `src/bit_vectors/darray/inner.rs`
     agree with the hand-written model (`DAIndex.flush`, `DAIndex.build`). -/
